@@ -52,7 +52,10 @@ class World:
 
     def write(self, op):
         cur = self.read(NAME)
-        c = {'wU': U, 'wU2': U2, 'wFA': F(U, 'A'), 'wS': cur if cur is not None else U}[op]
+        if op.startswith('wV'):
+            c = U + b'// v%d\n' % int(op[2:])        # digest sweep: many contents, hence many md5 values
+        else:
+            c = {'wU': U, 'wU2': U2, 'wFA': F(U, 'A'), 'wS': cur if cur is not None else U}[op]
         if c != cur:
             if self.tool_out is not None and c == self.tool_out:
                 # the user restored exactly the bytes the last run left: to any tool that looks at content (the md5 protocol) this is
@@ -187,6 +190,11 @@ def histories(tier):
                 if not any(o[0] == 'r' for o in h):
                     continue
                 out.append(h)
+    # digest sweep: the protocol compares md5 texts; every byte position of the digest should meet small and large values
+    for k in range(64 if tier == 'quick' else 512):
+        out.append(('wV%d' % k, 'rA', 'rA'))
+        if k % 4 == 0:
+            out.append(('wV%d' % k, 'rB', 'rA', 'rAi'))
     kills = []
     prefixes = [('wU',), ('wU', 'rA'), ('wU', 'rA', 'wU2'), ('wFA',), ('wU', 'rB', 'rA')]
     suffixes = [('rA',), ('rB',), ('rA', 'rA'), ('wS', 'rA'), ('wU2', 'rA'), ('rAi', 'rB')]
